@@ -955,6 +955,17 @@ DIRECTED = {
         "t.go": 'package main\n\ntype Addr string\ntype Port int\ntype Endpoint struct {\n\tAddr Addr\n\taddr Port\n}\ntype Server struct {\n\tE *Endpoint\n\tP Port\n}\n\nfunc NewAddr() Addr { return "localhost" }\nfunc NewPort() Port { return 8080 }\nfunc NewServer(e *Endpoint, p Port) *Server { return &Server{e, p} }\n',
         "main.go": 'package main\n\nfunc main() { s := InitServer(); println(string(s.E.Addr), int(s.E.addr), int(s.P)) }\n',
         "wire.go": '//go:build wireinject\n\npackage main\n\nimport "github.com/google/wire"\n\nfunc InitServer() *Server {\n\twire.Build(NewAddr, NewPort, NewServer, wire.Struct(new(Endpoint), "addr"))\n\treturn nil\n}\n'},
+    # a struct provider written as a struct literal (the spelling wire had before wire.Struct, still accepted)
+    "struct_literal_provider": {
+        "t.go": 'package main\n\ntype Host string\ntype Port int\ntype Options struct {\n\tHost Host\n\tPort Port\n}\ntype Greeter struct{ O *Options }\n\nfunc NewHost() Host { return "h" }\nfunc NewPort() Port { return 80 }\nfunc NewGreeter(o *Options) *Greeter { return &Greeter{o} }\n',
+        "main.go": 'package main\n\nfunc main() { g := InitGreeter(); println(string(g.O.Host), int(g.O.Port)) }\n',
+        "wire.go": '//go:build wireinject\n\npackage main\n\nimport "github.com/google/wire"\n\nvar Set = wire.NewSet(Options{}, NewGreeter)\n\nfunc InitGreeter() *Greeter {\n\twire.Build(NewHost, NewPort, Set)\n\treturn nil\n}\n'},
+    # wire.InterfaceValue of a bare identifier that a dot import brings in
+    "interface_value_dot_import": {
+        "defaults/d.go": 'package defaults\n\nimport "bytes"\n\nvar Out = bytes.NewBufferString("out")\n\nvar Name = "n"\n',
+        "t.go": 'package main\n\nimport "fmt"\n\ntype App struct{ S string }\n\nfunc NewApp(w fmt.Stringer, n string) *App { return &App{w.String() + n} }\n',
+        "main.go": 'package main\n\nfunc main() { println(InitApp().S) }\n',
+        "wire.go": '//go:build wireinject\n\npackage main\n\nimport (\n\t"fmt"\n\n\t"github.com/google/wire"\n\n\t. "vscratch/NAME/defaults"\n)\n\nfunc InitApp() *App {\n\twire.Build(wire.InterfaceValue(new(fmt.Stringer), Out), wire.Value(Name), NewApp)\n\treturn nil\n}\n'},
     # wire.Struct(new(T)) without field names fills no field (repaired: it was migrated as "*")
     "struct_no_field_names": {
         "t.go": 'package main\n\ntype Host string\n\ntype Config struct{ Host Host }\n\nfunc ProvideHost() Host { return "h" }\n\ntype App struct {\n\tC *Config\n\tH Host\n}\n\nfunc NewApp(c *Config, h Host) *App { return &App{c, h} }\n',
